@@ -191,12 +191,16 @@ InSpans(k, spans) == Len(spans) = 0 \/ \E i \in DOMAIN spans : InR(k, spans[i][1
 RestrictSt(st, spans) == [pts |-> [k \in Keys |-> IF InSpans(k, spans) THEN st.pts[k] ELSE Absent],
                           rks |-> [p \in Prefixes |-> IF InSpans(PK(p), spans) THEN st.rks[p] ELSE {}]]
 Checkpoint == Is("checkpoint")
+              (* Ev.during: entries committed while the call was in progress (issued from inside it);   *)
+              (* n0: entries committed when it began.  The checkpoint is the history up to some point   *)
+              (* that is not before n0 (flushed WAL) / not before the last acknowledged entry among the *)
+              (* first n0, and not after the call's return                                              *)
               /\ (Chk("ckpt") =>
                     /\ Ev.ok
-                    /\ LET got == RestrictSt(StOf(Ev.state), Ev.spans) IN
-                       IF Ev.flushwal THEN got = RestrictSt(cur, Ev.spans)
-                       ELSE \E n \in MaxAcked(wents)..Len(wents) :
-                               got = RestrictSt(ApplyEntries(base, wents, 1, n), Ev.spans))
+                    /\ LET got == RestrictSt(StOf(Ev.state), Ev.spans)
+                           n0 == IF Len(wents) >= Ev.during THEN Len(wents) - Ev.during ELSE 0
+                           lo == IF Ev.flushwal THEN n0 ELSE MaxAcked(SubSeq(wents, 1, n0)) IN
+                       \E n \in lo..Len(wents) : got = RestrictSt(ApplyEntries(base, wents, 1, n), Ev.spans))
               /\ UNCHANGED <<cur, hs, cv>>
 (* C45: the internal keys ScanInternal produced for [a, b), written into an empty DB, give the   *)
 (* source's visible state inside the span                                                        *)
